@@ -5,6 +5,9 @@ from sqv import hlib
 from smartquery import SqParser, rules
 from smartquery.exceptions import ParserError
 from sqv.api import PARSER
+from sqv import hlib as _h
+with _h.native(unwalled=True):
+    CACHING = SqParser(parse_cache={})          # the same texts through a parser with a parse cache
 
 PROGRAMS = [
     "x = f(a, b)\ny = [1, 2, 3]\nx + y[0]",
@@ -20,6 +23,9 @@ PROGRAMS = [
     "m = [[1, 2],\n     [3, 4]]\nm | map(r => r | sum)",
     "p = 1;q = 2 ; p - -q",
     "v = -x.f(3)\nw = not s.g('a', 1)\nn = 7.str() + [10.max(3), 2][0].str()\n-v.h(w) | k(n)",
+    "m = [\n 1,\n 2,\n]\nr = f(a,\n b,\n)\nq = {'k': g(1, ),\n}\nm.push(1,\n)",
+    "s = \"page one\x0cpage two\"\nt = %a\x0bb\x1c% # c\u2028 d\x85 e\nu = 'x\u2029y\x1dz'\ns + t + u",
+    "\n\nx = 10\ny = 20\n\nx + y\n",
 ]
 
 
@@ -48,8 +54,8 @@ def tokens_of(text):
     return out
 
 
-def parse_outcome(text):
-    p = PARSER
+def parse_outcome(text, parser=None):
+    p = parser or PARSER
     try:
         return ('ok', repr(p.parse(text)))
     except ParserError as e:
@@ -193,42 +199,67 @@ def rewrite(text, kind, pos):
     return None
 
 
+with _h.native():
+    # number of applicable positions per (program, rewrite) and of token boundaries per program (computed once, natively)
+    NPOS = {}
+    for _pi, _prog in enumerate(PROGRAMS):
+        for _ri, _kind in enumerate(REWRITES):
+            _n = 0
+            while _n < 60 and rewrite(_prog, _kind, _n) is not None:
+                _n += 1
+            NPOS[(_pi, _ri)] = _n
+    NBOUND = {}
+    for _pi, _prog in enumerate(PROGRAMS):
+        NBOUND[_pi] = max(len(sorted({t[2] for t in (tokens_of(v) or [])})) + 1
+                          for v in (_prog, _prog.replace('\n', '\r\n'), rewrite(_prog, 'semicolon_for_newline', 0) or _prog))
+
+
 def layout_rewrite(ri: int, pos: int) -> None:
     """
-    pre: 0 <= ri < 17 and 0 <= pos < 40
+    pre: 0 <= ri < 17 and 0 <= pos < 60
     post: True
     """
     hlib.enter(locals())
     pi = hlib.PARAM["program"]
-    ri, pos = hlib.concrete(ri, 0, 16), hlib.concrete(pos, 0, 39)
+    ri = hlib.concrete(ri, 0, 16)
+    hlib.assume(pos < NPOS[(pi, ri)])
+    pos = hlib.concrete(pos, 0, 59)
     with hlib.native():
         base = PROGRAMS[pi]
         new = rewrite(base, REWRITES[ri], pos)
         if new is not None:
             a, b = parse_outcome(base), parse_outcome(new)
+            a2, b2 = parse_outcome(base, CACHING), parse_outcome(new, CACHING)
     hlib.assume(new is not None)
     assert a[0] == 'ok', "base program does not parse: %r" % (a,)
     assert a == b, "layout rewrite %s at #%d changes the parsed program: %r -> %r" % (REWRITES[ri], pos, base, new)
+    assert a2 == a and b2 == b, "a parser with a parse cache parses %r or %r differently" % (base, new)
     hlib.done()
 
 
 STRAY = [')', ']', 'stray', '=>', '}', '1.5', ':', '$', '"', 'for', '))', '\x00']
 
 
-def error_line(si: int, pos: int, sep: int, trunc: bool, pre_list: bool = False) -> None:
+def error_line(si: int, pos: int, sep: int, trunc: bool, pre_list: bool = False, cached: bool = False) -> None:
     """
-    pre: 0 <= si < 12 and 0 <= pos < 40 and 0 <= sep <= 2
+    pre: 0 <= si < 12 and 0 <= pos < 60 and 0 <= sep <= 2
     post: True
     """
     # a valid program made invalid by a stray token at a token boundary (or truncated there): the message names the
     # reported token's text and the physical line it stands on, whatever separators / bracketed line breaks precede it
     hlib.enter(locals())
     pi = hlib.PARAM["program"]
-    si, pos, sep = hlib.concrete(si, 0, 11), hlib.concrete(pos, 0, 39), hlib.concrete(sep, 0, 2)
-    if not hlib.PARAM.get("class_only"):
+    hlib.assume(pos < NBOUND[pi])
+    if hlib.PARAM.get("class_only"):
+        hlib.assume(hlib.deep() or si >= 7 or trunc)          # quick tier: the first 7 stray tokens are exercised (with the same class check) by C20
+    else:
         hlib.assume(si < 7)
+    si, pos, sep = hlib.concrete(si, 0, 11), hlib.concrete(pos, 0, 59), hlib.concrete(sep, 0, 2)
     trunc = True if trunc else False
     pre_list = True if pre_list else False
+    cached = True if cached else False
+    hlib.assume(hlib.deep() or not cached or (si <= 1 and not pre_list))
+    P = CACHING if cached else PARSER
     hlib.assume(hlib.deep() or not pre_list or (sep == 0 and si <= 2 and not trunc))
     res = None
     with hlib.native():
@@ -244,27 +275,27 @@ def error_line(si: int, pos: int, sep: int, trunc: bool, pre_list: bool = False)
             text = base[:b] if trunc else base[:b] + ' ' + STRAY[si] + ' ' + base[b:]
             if pre_list:
                 # an earlier, partly consumed list_names() on multi-line text with an open bracket must not matter
-                g = PARSER.list_names("a = [1,\n 2,\n b(\n c")
+                g = P.list_names("a = [1,\n 2,\n b(\n c")
                 next(g, None)
                 next(g, None)
-                list(PARSER.list_names("x\ny\n(z"))
+                list(P.list_names("x\ny\n(z"))
             seen = {}
-            orig = PARSER.yacc.errorfunc
+            orig = P.yacc.errorfunc
 
             def rec(p):
                 seen['tok'] = p
                 return orig(p)
-            PARSER.yacc.errorfunc = rec
+            P.yacc.errorfunc = rec
             try:
                 try:
-                    PARSER.parse(text)
+                    P.parse(text)
                     res = ('ok',)
                 except ParserError as e:
                     res = ('parser_error', str(e), seen.get('tok', 'none'))
                 except Exception as e:
                     res = ('other', type(e).__name__ + ': ' + str(e))
             finally:
-                PARSER.yacc.errorfunc = orig
+                P.yacc.errorfunc = orig
     hlib.assume(res is not None)
     assert res[0] != 'other', "%r: %s" % (text, res[1])
     if hlib.PARAM.get("class_only"):
